@@ -230,6 +230,7 @@ def correspond(ctx: Ctx) -> None:
 
 def oracle(ctx: Ctx) -> None:
     pattern_shape.anchor_oracle(ctx)
+    c13.intersection_stage(ctx, accepts_invalid=True)
     c13.enumerated_stage(ctx, valid=False, mutants=True)
     c13.close_families(ctx)
     c13.model_stage(ctx, ctx.n(22, 300), mutants=True)
@@ -326,6 +327,9 @@ def _enc_cons(cons: Any) -> str:
 def replay(ctx: Ctx, data: Dict[str, Any]) -> Any:
     inp = data["failure"]["input"] if "failure" in data else data
     before = len(ctx.failures)
-    res = c13.replay_model(ctx, inp)
+    if "intersect" in inp:
+        res = c13.judge_intersection(ctx, inp["intersect"], "replay", extra=[inp["text"]] if "text" in inp else [], accepts_invalid=True)
+    else:
+        res = c13.replay_model(ctx, inp)
     res["oracle"] = [(f["sig"], f["what"]) for f in ctx.failures[before:]]
     return res
